@@ -264,6 +264,19 @@ package posix
 //@   at-return {C07,C01} [the-size-listed-is-the-size-of-the-file] when ret1 == nil :: ensures ret0.Size != nil && called("fs.DirEntry.Info") && result("fs.DirEntry.Info", 1) == nil \
 //@        && (called("fs.FileInfo.Size") ==> *ret0.Size == result("fs.FileInfo.Size", 0)) && (!called("fs.FileInfo.Size") ==> *ret0.Size == 0)
 //@   at-return {C07,C01} [the-key-listed-is-the-path-visited] when ret1 == nil :: ensures ret0.Key != nil && *ret0.Key == path
+// a file whose current version is a delete marker is not listed, whatever the bucket's versioning status is now
+//@   at-return {C07} [a-delete-marker-is-not-listed] when ret1 == nil && !d.IsDir() :: ensures called("posix.Posix.isObjDeleteMarker") \
+//@        && arg("posix.Posix.isObjDeleteMarker", 1) == bucket && arg("posix.Posix.isObjDeleteMarker", 2) == path && !result("posix.Posix.isObjDeleteMarker", 0)
+
+// ---- C07: no common prefix without a key below it: after a delete, the directories above the key that are neither objects
+// nor in use are removed, level by level, starting with the parent of the key without its trailing slash ----
+//@ func (*Posix) removeParents
+//@   loop 1 invariant {C07} [the-walk-up-starts-at-the-key-without-its-trailing-slash] !called("os.Remove") ==> objPath == strings.TrimSuffix(object, "/")
+//@   loop 1 invariant {C07} [the-walk-up-continues-from-the-directory-removed-last] called("os.Remove") ==> arg("os.Remove", 0) == filepath.Join(bucket, objPath)
+//@   at-call os.Remove {C07} [the-directory-removed-is-the-parent-of-the-level-reached] requires $0 == filepath.Join(bucket, filepath.Dir(objPath))
+//@   at-call os.Remove {C07} [a-directory-that-is-an-object-stays] requires called("meta.MetadataStorer.RetrieveAttribute") && arg("meta.MetadataStorer.RetrieveAttribute", 1) == bucket \
+//@        && arg("meta.MetadataStorer.RetrieveAttribute", 2) == filepath.Dir(objPath) && arg("meta.MetadataStorer.RetrieveAttribute", 3) == etagkey \
+//@        && result("meta.MetadataStorer.RetrieveAttribute", 1) != nil
 //@ func (*Posix) ListObjects
 // C04: the walk is rooted in the bucket's own directory through os.DirFS, whose io/fs path validation refuses any
 // name with a dot-dot element (the prefix cannot leave the bucket)
